@@ -239,6 +239,21 @@ gproof! { fn c11_arc_from_raw_slice() {
     core::mem::forget(b);
 } }
 
+// @h props=C11,C01,C05 fuc=Arc::from_raw_slice,Arc::into_raw note="OVER-ALIGNED elements (the slice starts 32 bytes into the block, not 8), every length 0..=2"
+gproof! { fn c11_arc_from_raw_slice__a32() {
+    let buf = [S33a32::any(), S33a32::any()];
+    let len: usize = kani::any();
+    kani::assume(len <= 2);
+    let a: Arc<[S33a32]> = Arc::from(&buf[..len]);
+    let (b0, c0) = (base(&a), cw(&a));
+    let raw = Arc::into_raw(a);
+    assert!(raw as *const u8 as usize == b0 + 32);
+    let b = unsafe { Arc::from_raw_slice(raw) };
+    assert!(base(&b) == b0 && cnt(&b) == 1 && b.len() == len && vrt::ga(1) && vrt::gd(0));
+    drop(b);
+    assert!(vrt::glive(0) && vrt::g_ok());
+} }
+
 // @h props=C01,C11 fuc=Arc::from_raw,Arc::into_raw note="sized -> trait object pointer cast"
 gproof! { fn c11_arc_from_raw_cast_to_dyn() {
     let n = any_count();
@@ -1113,6 +1128,7 @@ pub(crate) mod serde_h {
     pub struct Rec {
         pub token: u8,
         pub outcome: Result<u16, E>,
+        pub human: bool, // what is_human_readable answers (compact binary formats say false)
     }
     macro_rules! other { ($($n:ident($t:ty)),*) => { $( fn $n(self, _v: $t) -> Result<u16, E> { unsafe { REC_CALLS += 100; } Err(E(254)) } )* } }
     impl Serializer for Rec {
@@ -1125,6 +1141,9 @@ pub(crate) mod serde_h {
         type SerializeMap = Impossible<u16, E>;
         type SerializeStruct = Impossible<u16, E>;
         type SerializeStructVariant = Impossible<u16, E>;
+        fn is_human_readable(&self) -> bool {
+            self.human
+        }
         fn serialize_u32(self, v: u32) -> Result<u16, E> {
             unsafe {
                 REC_CALLS += 1;
@@ -1175,7 +1194,8 @@ pub(crate) mod serde_h {
         let v: u32 = kani::any();
         let a = vrt::mk(Sp(v), n);
         let (token, outcome) = (kani::any::<u8>(), any_outcome());
-        let r = a.serialize(Rec { token, outcome });
+        let human: bool = kani::any();
+        let r = a.serialize(Rec { token, outcome, human });
         // the value's own serialize ran exactly once, on &*arc, with THAT serializer; result unchanged
         assert!(unsafe { SP_CALLS == 1 && SP_SELF == data(&a) });
         assert!(unsafe { REC_CALLS == 1 && REC_LAST == v && REC_TOKEN == token });
@@ -1195,10 +1215,11 @@ pub(crate) mod serde_h {
     gproof! { fn c17_serialize_zero_sized_payload_transparent() {
         let a = Arc::new(Sz);
         let (token, outcome) = (kani::any::<u8>(), any_outcome());
-        let r = a.serialize(Rec { token, outcome });
+        let human: bool = kani::any();
+        let r = a.serialize(Rec { token, outcome, human });
         assert!(unsafe { SP_CALLS == 1 && SP_SELF == data(&a) && REC_CALLS == 1 && REC_LAST == 0xC0FFEE && REC_TOKEN == token } && r == outcome);
         let u = UniqueArc::new(Sz);
-        let r2 = u.serialize(Rec { token, outcome });
+        let r2 = u.serialize(Rec { token, outcome, human });
         assert!(unsafe { SP_CALLS == 2 && REC_CALLS == 2 } && r2 == outcome);
         core::mem::forget(a);
         core::mem::forget(u);
@@ -1210,10 +1231,36 @@ pub(crate) mod serde_h {
         let u = UniqueArc::new(Sp(v));
         let d0 = data(crate::unique_arc::kani_h::inner_arc(&u));
         let (token, outcome) = (kani::any::<u8>(), any_outcome());
-        let r = u.serialize(Rec { token, outcome });
+        let human: bool = kani::any();
+        let r = u.serialize(Rec { token, outcome, human });
         assert!(unsafe { SP_CALLS == 1 && SP_SELF == d0 });
         assert!(unsafe { REC_CALLS == 1 && REC_LAST == v && REC_TOKEN == token });
         assert!(r == outcome && vrt::ga(1) && vrt::gd(0));
+        core::mem::forget(u);
+    } }
+
+    // byte-aligned, multi-byte payload without drop glue, with its OWN serialisation
+    pub struct Sb(pub [u8; 2]);
+    impl Serialize for Sb {
+        fn serialize<S: Serializer>(&self, s: S) -> Result<S::Ok, S::Error> {
+            unsafe { SP_CALLS += 1; SP_SELF = self as *const Sb as usize; }
+            s.serialize_u32(self.0[0] as u32 * 256 + self.0[1] as u32)
+        }
+    }
+    // @h props=C17 mod=serde_h fuc=Arc::serialize,UniqueArc::serialize note="alignment-1 multi-byte payload, human-readable AND compact (is_human_readable() == false) serializers: still exactly the value's own calls, no raw-bytes shortcut"
+    gproof! { fn c17_serialize_byte_struct_any_format() {
+        let v: [u8; 2] = kani::any();
+        let (token, outcome) = (kani::any::<u8>(), any_outcome());
+        let human: bool = kani::any();
+        let want = v[0] as u32 * 256 + v[1] as u32;
+        let a = Arc::new(Sb(v));
+        let r = a.serialize(Rec { token, outcome, human });
+        assert!(unsafe { SP_CALLS == 1 && SP_SELF == data(&a) && REC_CALLS == 1 && REC_LAST == want && REC_TOKEN == token } && r == outcome);
+        let u = UniqueArc::new(Sb(v));
+        let r2 = u.serialize(Rec { token, outcome, human });
+        assert!(unsafe { SP_CALLS == 2 && REC_CALLS == 2 && REC_LAST == want } && r2 == outcome);
+        kani::cover!(!human, "compact format");
+        core::mem::forget(a);
         core::mem::forget(u);
     } }
 
@@ -1222,9 +1269,10 @@ pub(crate) mod serde_h {
         let v: u32 = kani::any();
         let a = Arc::new(v);
         let (token, outcome) = (kani::any::<u8>(), any_outcome());
-        let r = a.serialize(Rec { token, outcome });
+        let human: bool = kani::any();
+        let r = a.serialize(Rec { token, outcome, human });
         let (c1, l1, t1) = unsafe { (REC_CALLS, REC_LAST, REC_TOKEN) };
-        let r2 = v.serialize(Rec { token, outcome });
+        let r2 = v.serialize(Rec { token, outcome, human });
         assert!(r == r2 && c1 == 1 && unsafe { REC_CALLS } == 2 && l1 == unsafe { REC_LAST } && t1 == token);
         core::mem::forget(a);
     } }
@@ -1480,6 +1528,23 @@ gproof! { #[kani::unwind(12)] fn c08_od_make_mut_orders() {
         assert!(subs == 1);
     }
     core::mem::forget(a);
+} }
+
+// @h props=C08,C03,C02 build=shim fuc=OffsetArc::make_mut note="the OffsetArc form of the gate: writing in place needs an acquire-class load of the count that saw 1 (a relaxed strong_count == 1 fast path does not synchronise with the other owner's release)"
+gproof! { #[kani::unwind(12)] fn c08_od_offset_make_mut_orders() {
+    let n = any_count();
+    let mut o = Arc::into_raw_offset(mk(Tr8::new(), n));
+    tr::reset();
+    let _ = o.make_mut();
+    if n == 1 {
+        assert!(tr::od_no_modification() && tr::od_acquire_saw_one(), "OD-unique: in-place OffsetArc::make_mut without an acquire-class load that saw 1");
+    } else {
+        let mut i = 0;
+        let mut subs = 0;
+        while i < tr::tlen() { let e = tr::ev(i); if e.k == tr::K::Sub { subs += 1; assert!(e.seen == n && tr::release_class(e.ord)); } i += 1; }
+        assert!(subs == 1);
+    }
+    core::mem::forget(o);
 } }
 
 // @h props=C09,C02 build=shim fuc=Arc::try_unwrap,UniqueArc::into_inner note="moving the value out is preceded by an acquire-class load that saw 1; exactly one dealloc after it"
